@@ -1,3 +1,72 @@
-From Cache Require Import Base Failover.
-Theorem C05_placeholder : True. Proof. exact I. Qed.
-Print Assumptions C05_placeholder.
+(* C05 — build economy: SyncRead single flight, cached failures suppress rebuilds.
+
+   Model: theories/Failover.v; proofs: theories/FailoverEcon.v. The backend is an adversarial oracle in
+   the model, so "while its result stays fresh" is the hypothesis [coherent]: once a build result for
+   the key was stored, later reads of the key hit. *)
+From Cache Require Import Base Failover FailoverProofs FailoverProv FailoverEcon.
+
+(* With SyncRead every builder invocation for k follows a read of k made under the key lock, by the
+   invoking Get or by the Get that spawned the background build, that did not hit, with no build
+   result for k stored in between — for every number of Gets, keys, interleavings, oracle answers. *)
+Theorem C05_single_flight :
+  forall fe nilb c ls s pre post t k,
+    f_sync_read c = true -> frun fe nilb c f0 ls = Some s -> flog s = pre ++ FBuildStart t k :: post ->
+    since_read pre t k.
+Proof. exact single_flight. Qed.
+Print Assumptions C05_single_flight.
+
+(* Hence, against a coherent backend, a successful build for k is never followed by another builder
+   invocation for k: however many Gets wait or arrive, a burst costs exactly one successful build. *)
+Theorem C05_no_rebuild_while_fresh :
+  forall fe nilb c ls s l1 l2 l3 t1 v ttl t2 k,
+    f_sync_read c = true -> frun fe nilb c f0 ls = Some s ->
+    flog s = l1 ++ FWrite t1 k v ttl false None :: l2 ++ FBuildStart t2 k :: l3 ->
+    coherent k (flog s) -> False.
+Proof. exact no_rebuild_while_fresh. Qed.
+Print Assumptions C05_no_rebuild_while_fresh.
+
+(* After a builder failure: a Get that checks the failure cache while the failure is live (its clock
+   reading is not past the stored expiry, which is FailedUpdateTTL with jitter after the failure) leaves
+   with the cached error and is never inside the builder afterwards. *)
+Theorem C05_failure_gate :
+  forall fe nilb c s t o s' th e ls s'',
+    threads s !! t = Some th -> t_pc th = PFailCache -> 0 <= f_failed_ttl c -> t_skip th = false ->
+    live_failure s (t_key th) (o_now o) e ->
+    fstep fe nilb c s (LStep t o) = Some s' -> frun fe nilb c s' ls = Some s'' ->
+    (exists th', threads s' !! t = Some th' /\ (t_res th').2 = Some e /\ flog s' = flog s ++ [FErrHit t (t_key th) e]) /\
+    (exists th'', threads s'' !! t = Some th'' /\ finished (t_pc th'') = true).
+Proof.
+  intros fe nilb c s t o s' th e ls s'' Ht Hpc Httl Hskip Hlive Hs Hr.
+  destruct (gate_hit fe nilb c s t o s' th e Ht Hpc Httl Hskip Hlive Hs) as (th' & Ht' & Hf & Hres & Hlog).
+  split; [by exists th'|]. eapply finished_forever; eauto.
+Qed.
+Print Assumptions C05_failure_gate.
+
+(* FailedUpdateTTL = -1: nothing is ever cached, the failure cache cannot suppress the next build *)
+Theorem C05_failures_not_cached :
+  forall fe nilb c ls s, f_failed_ttl c < 0 -> frun fe nilb c f0 ls = Some s -> errs s = ∅.
+Proof.
+  intros fe nilb c ls s Hneg Hr.
+  assert (H0 : NoErrs f0) by (split; [done|]; intros t th Hl; cbn in Hl; by rewrite lookup_empty in Hl).
+  exact (ne_errs _ (no_failure_cache fe nilb c ls Hneg _ _ H0 Hr)).
+Qed.
+Print Assumptions C05_failures_not_cached.
+
+(* non-vacuity: two Gets with SyncRead against a backend that misses first and hits after the build;
+   one builder invocation in the log, and the log is coherent *)
+Example C05_burst_of_two :
+  let miss := mkOrc 10 RMiss None (inl 7) [] 0 in
+  let hit := mkOrc 10 (RHit 7) None (inl 8) [] 0 in
+  let c := mkFcfg Legacy false true false 0 20 60 false false false in
+  let k := [1%N] in
+  match frun_x c f0
+    (LSpawn 1%N k false None :: LSpawn 2%N k false None ::
+     LStep 1%N miss :: LStep 1%N miss :: LStep 2%N miss :: LStep 2%N miss ::   (* 1 owns the lock, 2 finds it locked *)
+     LStep 1%N miss ::                                                            (* read under the lock: miss *)
+     LStep 2%N miss :: LStep 2%N miss ::                                          (* 2: read (miss), classify -> waits *)
+     replicate 8 (LStep 1%N miss) ++ [LStep 2%N hit]) with
+  | Some s => (length (List.filter (fun e => match e with FBuildStart _ _ => true | _ => false end) (flog s)),
+               omap (fun e => match e with FReturn t _ v None => Some (t, v) | _ => None end) (flog s))
+  | None => (99%nat, [])
+  end = (1%nat, [(1%N, 7); (2%N, 7)]).
+Proof. vm_compute. reflexivity. Qed.
